@@ -316,3 +316,11 @@ def instances(tier):
     out.append(fits_bounded_instance(tied_only=True))
     out.append(assignment_relabelling_bounded_instance())
     return out
+
+
+_instances_before_simplex = instances
+
+
+def instances(tier):       # noqa: F811
+    from .common import simplex_lemma_instances
+    return _instances_before_simplex(tier) + simplex_lemma_instances('C05')
